@@ -340,6 +340,81 @@ def _pin_release_and_manager(mod: ast.Module) -> None:
         raise px.Unsupported("LocalManager.cleanup is no longer `for local in self.locals: release_local(local)`")
 
 
+ALLOWED_IMPORTS = {"__future__", "copy", "math", "operator", "typing", "contextvars", "functools", "wsgi",
+                   "_typeshed.wsgi"}
+
+
+def _pin_middleware(mod: ast.Module) -> str:
+    """the middleware glue: the ONLY thing LocalManager arranges is that close() of the wrapped iterable calls
+    cleanup() (in the closing context).  Anything that could run cleanup / a release anywhere else - weakref
+    finalizers, atexit, threads, event-loop callbacks, __del__ - fails closed: the import list of local.py, every
+    mention of cleanup / release_local / __release_local__, the statement structure of LocalManager and of
+    wsgi.ClosingIterator are pinned."""
+    for n in ast.walk(mod):
+        if isinstance(n, ast.Import):
+            for a in n.names:
+                if a.name.split(".")[0] not in ALLOWED_IMPORTS:
+                    raise px.Unsupported(f"local.py imports {a.name} (line {n.lineno}): not in the pinned import list")
+        elif isinstance(n, ast.ImportFrom):
+            m = n.module or ""
+            if m not in ALLOWED_IMPORTS:
+                raise px.Unsupported(f"local.py imports from {m} (line {n.lineno}): not in the pinned import list")
+        elif isinstance(n, ast.Call) and isinstance(n.func, ast.Name) and n.func.id in ("__import__", "eval", "exec"):
+            raise px.Unsupported(f"local.py calls {n.func.id} (line {n.lineno})")
+        elif isinstance(n, ast.FunctionDef) and n.name in ("__del__", "__init_subclass__"):
+            raise px.Unsupported(f"local.py defines {n.name} (line {n.lineno})")
+    lm = px.find_class(mod, "LocalManager")
+    meths = sorted(n.name for n in lm.body if isinstance(n, (ast.FunctionDef, ast.AsyncFunctionDef)))
+    if meths != ["__init__", "__repr__", "cleanup", "make_middleware", "middleware"]:
+        raise px.Unsupported(f"LocalManager methods changed: {meths}")
+    init = [_norm(s) for s in _strip_doc(_method(lm, "__init__").body)]
+    if init != ["if locals is None:\n    self.locals = []\nelif isinstance(locals, Local):\n    self.locals = [locals]\n"
+                "else:\n    self.locals = list(locals)"]:
+        raise px.Unsupported("LocalManager.__init__ changed")
+    mm = _strip_doc(_method(lm, "make_middleware").body)
+    ok = (len(mm) == 2 and isinstance(mm[0], ast.FunctionDef) and mm[0].name == "application"
+          and [a.arg for a in mm[0].args.args] == ["environ", "start_response"] and not mm[0].decorator_list
+          and [_norm(s) for s in _strip_doc(mm[0].body)] == ["return ClosingIterator(app(environ, start_response), self.cleanup)"]
+          and _norm(mm[1]) == "return application")
+    if not ok:
+        raise px.Unsupported("LocalManager.make_middleware is no longer `return ClosingIterator(app(environ, start_response), "
+                             "self.cleanup)` inside `application`: cleanup may be scheduled somewhere else than close()")
+    mw = [_norm(s) for s in _strip_doc(_method(lm, "middleware").body)]
+    if mw != ["return update_wrapper(self.make_middleware(func), func)"]:
+        raise px.Unsupported("LocalManager.middleware changed")
+    # every mention of the release entry points in the module
+    n_cleanup = sum(1 for n in ast.walk(mod) if isinstance(n, ast.Attribute) and n.attr == "cleanup")
+    n_rl = sum(1 for n in ast.walk(mod) if isinstance(n, ast.Name) and n.id == "release_local")
+    n_dunder = sum(1 for n in ast.walk(mod) if isinstance(n, ast.Attribute) and n.attr == "__release_local__")
+    n_str = sum(1 for n in ast.walk(mod) if isinstance(n, ast.Constant) and isinstance(n.value, str)
+                and n.value in ("cleanup", "__release_local__", "release_local"))
+    if (n_cleanup, n_rl, n_dunder, n_str) != (1, 1, 1, 0):
+        raise px.Unsupported(f"cleanup / release_local / __release_local__ are mentioned {n_cleanup}/{n_rl}/{n_dunder} times "
+                             f"(+{n_str} by name string) in local.py, expected 1/1/1: a release may run outside the pinned call chain")
+    # wsgi.ClosingIterator: callbacks run in close() and nowhere else
+    wsgi = px.load("wsgi.py")
+    ci = px.find_class(wsgi, "ClosingIterator")
+    meths = sorted(n.name for n in ci.body if isinstance(n, (ast.FunctionDef, ast.AsyncFunctionDef)))
+    if meths != ["__init__", "__iter__", "__next__", "close"] or ci.bases or ci.decorator_list or ci.keywords:
+        raise px.Unsupported(f"wsgi.ClosingIterator methods / bases changed: {meths}")
+    if [_norm(s) for s in _strip_doc(_method(ci, "close").body)] != ["for callback in self._callbacks:\n    callback()"]:
+        raise px.Unsupported("wsgi.ClosingIterator.close changed")
+    uses = [n for n in ast.walk(wsgi) if isinstance(n, ast.Attribute) and n.attr == "_callbacks"]
+    if len(uses) != 2:
+        raise px.Unsupported("wsgi.ClosingIterator._callbacks is used outside __init__ / close")
+    init = _method(ci, "__init__")
+    for n in ast.walk(init):
+        if isinstance(n, ast.Call) and _norm(n.func) not in ("iter", "t.cast", "partial", "callable", "list", "getattr",
+                                                               "callbacks.insert"):
+            raise px.Unsupported(f"wsgi.ClosingIterator.__init__ calls {_norm(n.func)}")
+    for n in ast.walk(wsgi):
+        if isinstance(n, (ast.Import, ast.ImportFrom)):
+            names = [a.name for a in n.names] + [getattr(n, "module", "") or ""]
+            if any(x.split(".")[0] in ("weakref", "atexit", "gc", "threading", "asyncio", "signal") for x in names):
+                raise px.Unsupported(f"wsgi.py imports {names}")
+    return "Definition middleware_cleanup_only_on_close : bool := true.\n"
+
+
 def _proxy_tables(mod: ast.Module) -> str:
     """F part: the fallback table of the proxied special methods the model uses, and the shape of the
     _get_current_object closures for Local and LocalStack (pinned structurally, fail closed)."""
@@ -448,6 +523,7 @@ def gen_text() -> str:
         if [_norm(s) for s in last] != ["return LocalProxy(self, name, unbound_message=unbound_message)"]:
             raise px.Unsupported(f"{cname}.__call__ no longer returns LocalProxy(self, name, ...)")
     _pin_release_and_manager(mod)
+    text += _pin_middleware(mod)
     text += _proxy_tables(mod)
     return text
 
@@ -458,6 +534,7 @@ def gen() -> None:
 
 # ====================================================================== harness
 import asyncio  # noqa: E402
+import gc  # noqa: E402
 import contextvars  # noqa: E402
 import threading  # noqa: E402
 
@@ -486,9 +563,16 @@ class Env:
         self.mod = mod
         self.L = [mod.Local(), mod.Local()]
         self.S = [mod.LocalStack(), mod.LocalStack()]
+        self.manager = mod.LocalManager([self.L[0], self.S[0], self.L[1], self.S[1]])
+
+        def app(environ, start_response):
+            start_response("200 OK", [("Content-Type", "text/plain")])
+            return [b"x"]
+        self.wrapped = [self.manager.make_middleware(app), self.manager.middleware(app)]
         self.reset()
 
     def reset(self):
+        self.iters = []
         self.prox = []
         self.boxes = {}
         self.tok = 0
@@ -506,6 +590,20 @@ def tok(step) -> str:
         lst = ",".join(("s" if s else "l") + str(v) for s, v in op[1]) or "-"
         return f"{c}:clean:{lst}"
     return f"{c}:" + ":".join(str(x) for x in op)
+
+
+MW_LOCALS = "l0,s0,l1,s1"          # what Env.manager manages
+
+
+def mtok(step) -> str:
+    """the step as the extracted model reads it: closing a middleware-wrapped iterable IS cleanup() in the closing
+    context (structure pinned by the translator); wrapping and dropping are the model's no-effect steps"""
+    c, op = step
+    if op[0] == "mwclose":
+        return f"{c}:clean:{MW_LOCALS}"
+    if op[0] in ("mwopen", "mwdrop"):
+        return f"{c}:{op[0]}"
+    return tok(step)
 
 
 def untok(t: str):
@@ -559,6 +657,24 @@ def apply(env: Env, op) -> str:
             return "none"
         if k == "clean":
             env.mod.LocalManager([env.S[v] if s else env.L[v] for s, v in op[1]]).cleanup()
+            return "none"
+        if k == "mwopen":
+            it = env.wrapped[len(env.iters) % 2]({"REQUEST_METHOD": "GET"}, lambda status, headers, exc_info=None: None)
+            next(it)
+            env.iters.append(it)
+            del it
+            return "none"
+        if k == "mwclose":
+            if op[1] >= len(env.iters) or env.iters[op[1]] is None:
+                return "invalid"
+            env.iters[op[1]].close()
+            return "none"
+        if k == "mwdrop":
+            if op[1] >= len(env.iters):
+                return "invalid"
+            env.iters[op[1]] = None          # the last reference goes away in THIS context
+            if op[2]:
+                gc.collect()
             return "none"
         if k == "mkp":
             env.prox.append(env.L[op[2]](NAMES[op[3]]) if op[1] == "l" else env.S[op[2]]())
@@ -786,6 +902,7 @@ def oracle(steps) -> list[str]:
     starts from the parent's values, a thread from nothing; every operation touches the issuing context only."""
     ctxs = [{}]                       # var -> tuple of pairs (mapping) or tuple of values (stack)
     prox = []
+    iters = []
     outs = []
 
     def bound(m, d):
@@ -838,6 +955,22 @@ def oracle(steps) -> list[str]:
         elif k == "clean":
             for s, v in op[1]:
                 m[("s" if s else "l", v)] = ()
+            outs.append("none")
+        elif k == "mwopen":
+            iters.append(True)
+            outs.append("none")               # wrapping a response iterable touches no context
+        elif k == "mwdrop":
+            if op[1] >= len(iters):
+                outs.append("invalid")
+            else:
+                iters[op[1]] = False
+                outs.append("none")           # discarding it, wherever that happens, touches no context
+        elif k == "mwclose":
+            if op[1] >= len(iters) or not iters[op[1]]:
+                outs.append("invalid")
+                continue
+            for kind, v in (("l", 0), ("s", 0), ("l", 1), ("s", 1)):
+                m[(kind, v)] = ()              # close() = cleanup() in the CLOSING context only
             outs.append("none")
         elif k == "spawn":
             ctxs.append(dict(m))
@@ -906,12 +1039,31 @@ def enumerate_muts(alphabet, length: int, maxctx: int = 3):
     yield from rec([], 1)
 
 
-def realise(muts, every_step: bool):
-    """mutating steps -> full schedule with fresh values and observations"""
+MWALPHA = ["seta", "push", "mwopen", "mwclose", "mwdrop", "spawn", "thread"]
+
+
+def realise(muts, every_step: bool, gcflag: int = 0):
+    """mutating steps -> full schedule with fresh values and observations.  mwclose closes the most recently
+    wrapped live iterable, mwdrop discards the oldest live one (whichever context created them); None when
+    there is none (the enumeration skips such sequences)."""
     steps = list(PREFIX)
     nctx = 1
+    live, nopen = [], 0
     for i, (c, k) in enumerate(muts):
-        steps.append((c, _mk(k, i + 1)))
+        if k == "mwopen":
+            live.append(nopen)
+            nopen += 1
+            steps.append((c, ("mwopen",)))
+        elif k == "mwclose":
+            if not live:
+                return None
+            steps.append((c, ("mwclose", live[-1])))
+        elif k == "mwdrop":
+            if not live:
+                return None
+            steps.append((c, ("mwdrop", live.pop(0), gcflag)))
+        else:
+            steps.append((c, _mk(k, i + 1)))
         if k in ("spawn", "thread"):
             nctx += 1
         if every_step or i == len(muts) - 1:
@@ -924,6 +1076,7 @@ def random_schedule(rng, maxlen: int, maxctx: int):
     full observation of every context after every step"""
     steps = []
     nctx, nprox, val = 1, 0, 0
+    live, nopen = [], 0
     n = rng.randint(1, maxlen)
     for i in range(n):
         c = rng.randrange(nctx)
@@ -932,6 +1085,16 @@ def random_schedule(rng, maxlen: int, maxctx: int):
         if r < 0.10 and nctx < maxctx:
             op = ("spawn",) if rng.random() < 0.7 else ("thread",)
             nctx += 1
+        elif rng.random() < 0.10:
+            q = rng.random()
+            if q < 0.4 or not live:
+                live.append(nopen)
+                nopen += 1
+                op = ("mwopen",)
+            elif q < 0.7:
+                op = ("mwclose", rng.choice(live))
+            else:
+                op = ("mwdrop", live.pop(rng.randrange(len(live))), int(rng.random() < 0.15))
         elif r < 0.28:
             val += 1
             op = ("set", v, rng.randrange(3 if rng.random() < 0.3 else 2), val)
@@ -1096,6 +1259,18 @@ CORPUS = [
 ]
 
 
+MW_CORPUS = [
+    # request in ctx 1 (data, wrap, close), then ctx 2 stores data and A's finished iterable is dropped while ctx 2 runs
+    [(0, "spawn"), (0, "spawn"), (1, "seta"), (1, "push"), (1, "mwopen"), (1, "mwclose"), (2, "seta"), (2, "push"), (2, "mwdrop")],
+    # never closed by the server, dropped in a sibling thread-like (empty) context holding data
+    [(0, "thread"), (0, "seta"), (0, "mwopen"), (1, "seta"), (1, "push"), (1, "mwdrop")],
+    # dropped in the parent, which holds data, after the child request finished
+    [(0, "seta"), (0, "push"), (0, "spawn"), (1, "mwopen"), (1, "mwclose"), (0, "mwdrop")],
+    # closed in another context than the one that wrapped it: releases the CLOSING context only
+    [(0, "seta"), (0, "spawn"), (0, "mwopen"), (1, "push"), (1, "mwclose"), (0, "mwdrop")],
+]
+
+
 def schedules(rng, quick: bool, exh: dict):
     """generator of (runner, steps): corpus, exhaustive enumerations, random; fills `exh` with the measured sizes"""
     # corpus first: the schedules that expose a removed copy() / release leaking upward, and minimised past failures
@@ -1112,6 +1287,28 @@ def schedules(rng, quick: bool, exh: dict):
                         if line:
                             for r in RUNNERS:
                                 yield r, [untok(t) for t in line.split()]
+    # middleware glue (DESIGN 6/C18, seeded change C18-middleware-finalizer-cleanup): a response iterable wrapped by
+    # LocalManager.make_middleware in one context, properly closed there or not, outlives that context and is dropped /
+    # garbage-collected inside ANOTHER context that holds data in the managed locals: that context's view must not change
+    for m in MW_CORPUS:
+        for g in (0, 1):
+            for r in RUNNERS:
+                yield r, realise(m, True, g)
+    L_mw = 5 if quick else 6
+    n = 0
+    for ln in range(1, L_mw + 1):
+        for m in enumerate_muts(MWALPHA, ln):
+            if not any(k == "mwdrop" or k == "mwclose" for _, k in m):
+                continue
+            st = realise(m, True, int(ln <= 2))
+            if st is None:
+                continue
+            for r in (RUNNERS if ln <= 3 else ("copy",)):
+                n += 1
+                yield r, st
+    exh["middleware"] = dict(alphabet=MWALPHA, max_len=L_mw, contexts=3, schedules=n,
+                             observation="all contexts after every step; all three runners up to length 3; gc.collect() after the "
+                                         "drop up to length 2 and in the corpus scenarios")
     # exhaustive: every interleaving, prefix-closed (every length up to the bound, every context fully observed at
     # the end, so every prefix is observed, without intermediate reads) ...
     L_small, L_large = (5, 4) if quick else (6, 5)
@@ -1161,6 +1358,14 @@ def run(chk: Check) -> None:
 
     def process(chunk) -> None:
         t0 = time.time()
+        gc.collect()
+        gc.freeze()            # the schedules themselves are not garbage: keeps the gc.collect() of mwdrop steps cheap
+        try:
+            process_(chunk, t0)
+        finally:
+            gc.unfreeze()
+
+    def process_(chunk, t0) -> None:
         impl_outs, orc_outs = [], []
         for runner, steps in chunk:
             try:
@@ -1183,6 +1388,8 @@ def run(chk: Check) -> None:
                             f"{exp[d] if d < len(exp) else '?'}")
                     key = "cow:payload-mutated" if d < len(out) and "|payload-mutated" in out[d] else (
                         ("proxy:" if opk == "px" else "leak:") + opk)
+                    if any(op[0] in ("mwdrop", "mwopen") for _, op in steps[:d + 1]) and key.startswith("leak:"):
+                        key = "middleware-" + key
                     chk.fail(key, what,
                              {"runner": runner, "steps": [tok(s) for s in steps], "bad_step": d,
                               "impl": out[max(0, d - 3):d + 1], "expected": exp[max(0, d - 3):d + 1]})
@@ -1203,7 +1410,7 @@ def run(chk: Check) -> None:
         if not exe:
             return
         t0 = time.time()
-        body = [" ".join(tok(s) for s in steps) for _, steps in chunk]
+        body = [" ".join(mtok(s) for s in steps) for _, steps in chunk]
         res = chk.run_model(exe, ["g " + b for b in body] + ["s " + b for b in body])
         if res is None:
             return
@@ -1254,7 +1461,8 @@ def run(chk: Check) -> None:
     chk.count("schedules-disagreeing-with-oracle", st["bad"])
     for k, v in kinds.items():
         chk.count(f"op:{k}", v)
-    chk.cov["exhaustive"] = exh
+    chk.cov["exhaustive"] = True
+    chk.cov["exhaustive_detail"] = exh
     chk.cov["samples"] = st["samples"][:8]
     chk.notes.append(f"implementation + oracle over {st['n']} schedules: {st['t_impl']:.1f}s; extracted models (generated "
                      f"programs and reference) on the same schedules + comparison: {st['t_model']:.1f}s")
